@@ -21,46 +21,66 @@ from props import c03, c15
 LEVEL = 'other'
 
 
+def _bytes_written(prog, fname, globals_):
+    """tabulate a straight-line writer: the bytes it hands to xwrite(), for given values of the globals it reads"""
+    f = prog.func('compress', fname)
+    out = []
+
+    def oracle(key, ins):
+        root, path = key
+        if root[0] == 'G' and root[1] in globals_ and not path:
+            return globals_[root[1]]
+        raise Unknown('load of %r' % (key,))
+    fr = Frag(prog, f, oracle=oracle)
+
+    def xwrite(ptr, size):
+        if not isinstance(ptr, Ptr) or isinstance(size, Ptr):
+            raise Unknown('xwrite with unexpected operands')
+        bs = []
+        for i in range(size):
+            path = list(ptr.path)
+            if path and isinstance(path[-1], int):
+                path[-1] += i
+            else:
+                path.append(i)
+            k = (ptr.root, tuple(path))
+            if k not in fr.mem:
+                raise Unknown('byte %d of the buffer passed to xwrite was never written' % i)
+            bs.append(fr.mem[k] & 0xFF)
+        out.append(bytes(bs))
+        return None
+    fr.intrinsics['xwrite'] = xwrite
+    r = fr.run(f.entry.name)
+    return out
+
+
 def level_plumbing(ctx, prog):
     f = prog.func('compress', 'write_header')
-    P = Prov(prog, f)
-    st = {}
-    for i in f.insns():
-        if i.op == 'store':
-            k = addr_key(P.addr(i.ops[1]))
-            if k.startswith('A:buffer['):
-                st[int(k[9:-1])] = strip_casts(P.expr(i.ops[0]))
-    ok = st.get(0) == ('const', 0x42) and st.get(1) == ('const', 0x5A) and st.get(2) == ('const', 0x68)
-    d = st.get(3)
-    okd = d is not None and c03._lvl_poly(P, d) == {(): 0x30, ('G:bs100k',): 1}
-    xw = list(f.calls('xwrite'))
-    okw = len(xw) == 1 and strip_casts(P.expr(xw[0].ops[1])) == ('const', 4) and addr_key(P.expr(xw[0].ops[0])).startswith('A:buffer')
-    ctx.ob('C02.header', 'the stream header is the four bytes "BZh" and \'0\' + level', f.loc(), ok and okd and okw and
-           len(st) == 4, '%s' % {k: render(v) for k, v in st.items()})
+    bad = []
+    try:
+        for lvl in range(1, 10):
+            got = _bytes_written(prog, 'write_header', {'bs100k': lvl})
+            if got != [b'BZh' + bytes([0x30 + lvl])]:
+                bad.append('level %d: %r' % (lvl, got))
+    except Unknown as e:
+        broken('write_header() could not be tabulated: %s' % e)
+    ctx.ob('C02.header', 'the stream header is the four bytes "BZh" and \'0\' + level, for every level 1..9 (tabulated)',
+           f.loc(), not bad, '; '.join(bad[:3]) or '9 levels', evals=9)
     g = prog.func('compress', 'write_trailer')
-    Pg = Prov(prog, g)
-    st = {}
-    for i in g.insns():
-        if i.op == 'store':
-            k = addr_key(Pg.addr(i.ops[1]))
-            if k.startswith('A:buffer['):
-                st[int(k[9:-1])] = strip_casts(Pg.expr(i.ops[0]))
-    magic = [0x17, 0x72, 0x45, 0x38, 0x50, 0x90]
-    okm = all(st.get(k) is not None and st[k][0] == 'const' and st[k][1] & 0xFF == magic[k] for k in range(6))
-
-    def crc_byte(e, sh):
-        e = strip_casts(e)
-        if e[0] == 'bin' and e[1] == 'and' and strip_casts(e[3]) == ('const', 255):
-            e = strip_casts(e[2])
-        if sh == 0:
-            return e[0] == 'load' and addr_key(e[1]) == 'G:compress:combined_crc'
-        return e[0] == 'bin' and e[1] == 'lshr' and strip_casts(e[3]) == ('const', sh) and \
-            strip_casts(e[2])[0] == 'load' and addr_key(strip_casts(e[2])[1]) == 'G:compress:combined_crc'
-    okc = all(k in st and crc_byte(st[k], sh) for k, sh in ((6, 24), (7, 16), (8, 8), (9, 0)))
-    xw = list(g.calls('xwrite'))
-    okw = len(xw) == 1 and strip_casts(Pg.expr(xw[0].ops[1])) == ('const', 10)
-    ctx.ob('C02.trailer', 'the stream trailer is 0x177245385090 followed by combined_crc, most significant byte first',
-           g.loc(), okm and okc and okw and len(st) == 10, '%s' % {k: render(v) for k, v in sorted(st.items())})
+    bad = []
+    n = 0
+    try:
+        for crc in [0, 0xFFFFFFFF, 0x12345678, 0x80000001] + [1 << k for k in range(32)]:
+            n += 1
+            got = _bytes_written(prog, 'write_trailer', {'combined_crc': crc})
+            want = bytes([0x17, 0x72, 0x45, 0x38, 0x50, 0x90]) + crc.to_bytes(4, 'big')
+            if got != [want]:
+                bad.append('crc %#x: %r' % (crc, got))
+    except Unknown as e:
+        broken('write_trailer() could not be tabulated: %s' % e)
+    ctx.ob('C02.trailer', 'the stream trailer is 0x177245385090 followed by combined_crc, most significant byte first '
+           '(tabulated for every single bit of the CRC)', g.loc(), not bad, '; '.join(bad[:3]) or '%d values' % n, evals=n)
+    P = Prov(prog, f)
     # capacity at every encoder site
     m = prog.module('compress')
     n = 0
